@@ -459,8 +459,8 @@ class ThriftGen:
                 f["default"] = self.default_for(fi, t)
             if self.annotations and kind == "struct":
                 q = r.random()
-                # btree containers holding doubles get #[derive(Hash, Eq, Ord)]: finding F-14k (class predicted per document by
-                # Derive.v: btree_unsupported_b); produced with probability btree_double only
+                # btree containers holding doubles (finding F-14k, repaired: they no longer get #[derive(Hash, Eq, Ord)]) are
+                # produced with probability btree_double
                 if q < 0.04 and t[0] == "map" and self.no_double(t[1]) and (self.no_double(t[2]) or r.random() < self.btree_double):
                     f["annos"].append(("pilota.rust_type", "btree"))
                 elif q < 0.08 and t[0] == "set" and self.no_double(t[1]):
@@ -575,8 +575,8 @@ class ThriftGen:
             if q < 0.76:
                 return ("list", ("list", t)), "", []
             if q < self.arc_btree_edges * 0.5 + 0.76:
-                # edges the workspace graph does not have (Arc, btree containers): when the cycle's other member loses a derive
-                # through a later field, this member keeps it (finding F-14s, predicted per document by Derive.v)
+                # cycle edges below Arc / btree containers (finding F-14s, repaired: the workspace graph has them now, so a member
+                # delayed on such an edge is downgraded with the rest of its cycle)
                 return t, "optional", [("pilota.rust_wrapper_arc", "true")]
             if q < self.arc_btree_edges + 0.76:
                 return ("map", ("base", "i32"), t), "", [("pilota.rust_type", "btree")]
